@@ -135,14 +135,14 @@ def keylike_literals(task, dsk, stems, out, _in_graph_literal=False):
             keylike_literals(a, dsk, stems, out)
         return
     if isinstance(task, tuple):
-        if (
-            task
-            and isinstance(task[0], str)
-            and len(task) >= 2
-            and all(isinstance(x, int) and not isinstance(x, bool) for x in task[1:])
-        ):
-            if task not in dsk and task[0] in stems:
-                out.append(task)
+        try:
+            if task in dsk:  # a defined key (keys may nest: (("name", 0), 0))
+                return
+        except TypeError:
+            pass
+        if task and isinstance(task[0], str) and task[0] in stems:
+            # key-shaped literal whose head is a known name but which is not defined
+            out.append(task)
             return
         for a in task:
             keylike_literals(a, dsk, stems, out)
